@@ -530,35 +530,45 @@ def confirm_violations(ctx: Ctx) -> None:
             break
     if not sample:
         return
-    probe = Ctx(prop, ctx.tier, ctx.seed)
-    try:
-        recs = []
-        suite_mods = set()
-        for c, rec in sample:
-            g = rec["gen"]
-            if g.get("kind") == "observed":
-                suite_mods.add(rec.get("_observed_module", prop.trace_module))
-                continue
-            try:
-                r = prop.execute(g)
-            except Exception:  # noqa
-                continue
-            recs.extend(r if isinstance(r, list) else ([r] if r is not None else []))
-        by_mod: dict[str, list] = {}
-        for r in recs:
-            by_mod.setdefault(r.pop("_module", prop.trace_module), []).append(r)
-        for mod in prop.observed_from_suite if suite_mods else []:
-            by_mod.setdefault(mod, []).extend(records_from_repo_tests(mod))
-        for mod, rs in by_mod.items():
-            validate_records(probe, rs, module=mod)
-        again = {c for c, _, _ in probe.violations}
-        if not (again & {c for c, _ in sample}):
+    def attempt(sample):
+        probe = Ctx(prop, ctx.tier, ctx.seed)
+        try:
+            recs = []
+            suite_mods = set()
+            for c, rec in sample:
+                g = rec["gen"]
+                if g.get("kind") == "observed":
+                    suite_mods.add(rec.get("_observed_module", prop.trace_module))
+                    continue
+                try:
+                    r = prop.execute(g)
+                except Exception:  # noqa
+                    continue
+                recs.extend(r if isinstance(r, list) else ([r] if r is not None else []))
+            by_mod: dict[str, list] = {}
+            for r in recs:
+                by_mod.setdefault(r.pop("_module", prop.trace_module), []).append(r)
+            for mod in prop.observed_from_suite if suite_mods else []:
+                by_mod.setdefault(mod, []).extend(records_from_repo_tests(mod))
+            for mod, rs in by_mod.items():
+                validate_records(probe, rs, module=mod)
+            return {c for c, _, _ in probe.violations}
+        finally:
+            probe.scratch.cleanup()
+
+    again = attempt(sample) & {c for c, _ in sample}
+    if not again:
+        # A violation that depends on what the process did before (state the library keeps between calls) need not
+        # reproduce on the first few cases; a wider sample, spread over all negative verdicts, gets a second chance.
+        pool = [(c, rec) for c, rec, v in ctx.violations if isinstance(rec.get("gen"), dict)]
+        step = max(1, len(pool) // 120)
+        wide = pool[::step][:120]
+        again = attempt(wide) & {c for c, _ in wide}
+        if not again:
             raise MachineryError(
-                f"{len(ctx.violations)} verdicts were negative but none of {len(sample)} sampled cases reproduced when executed "
-                f"and judged again on the same tree (clauses {sorted(c for c, _ in sample)}): transient machinery state, no verdict")
-        ctx.notes.append(f"violations confirmed by re-execution: {sorted(again)}")
-    finally:
-        probe.scratch.cleanup()
+                f"{len(ctx.violations)} verdicts were negative but none of {len(sample)} + {len(wide)} sampled cases reproduced "
+                f"when executed and judged again on the same tree (clauses {sorted(c for c, _ in sample)}): transient machinery state, no verdict")
+    ctx.notes.append(f"violations confirmed by re-execution: {sorted(again)}")
 
 
 def finish(ctx: Ctx) -> int:
